@@ -21,12 +21,14 @@ Cfg(e) == [hasvar |-> e.cfg.hasvar, ndim |-> e.cfg.ndim, masks |-> e.cfg.masks, 
 (* interferes with the table"): only that every line before the table is a comment and    *)
 (* that the table is exactly the data (WellFormed, DataLine, Load).                        *)
 Judge(e) ==
-    LET c == Cfg(e)  d == Decide(c) IN
+    LET c == Cfg(e)  d == Decide(c)
+        rl == ReaderLines(e.lines)      \* evaluated once per event (ReaderLines is idempotent)
+    IN
     IF d # "write" THEN (IF e.out = "raised" THEN "ok" ELSE "written_instead_of_refused")
     ELSE IF e.out = "raised" THEN "representable_data_refused"
-    ELSE IF ~WellFormed(e.lines, c.nrows) THEN "file_structure"
-    ELSE IF \E i \in 1..c.nrows : e.lines[Len(e.lines) - c.nrows + i] # DataLine(Chosen(c), i) THEN "table_cells"
-    ELSE IF Load(e.lines) # [ok |-> TRUE, rows |-> Expected(c)] THEN "table_not_readable_by_specified_reader"
+    ELSE IF ~WellFormed(rl, c.nrows) THEN "file_structure"
+    ELSE IF \E i \in 1..c.nrows : rl[Len(rl) - c.nrows + i] # DataLine(Chosen(c), i) THEN "table_cells"
+    ELSE IF Load(rl) # [ok |-> TRUE, rows |-> Expected(c)] THEN "table_not_readable_by_specified_reader"
     ELSE IF ~e.loaded.ok THEN "load_failed"
     ELSE IF e.loaded.rows # Expected(c) THEN "loaded_data_differs"
     ELSE "ok"
